@@ -253,6 +253,9 @@ def complete (st : Core) (p : Pending) : Eff :=
     match errorCode p.res with
     | some e => answer st (some e) "pub"
     | none => if p.res = .nokey then answer st (some (.inl 107)) "pub"
+              -- `Result == nil`: the library calls Node.MapPublish / MapRemove itself; the harness node
+              -- has no map options for the channel, the (non-client) error becomes ErrorInternal
+              else if p.res = .nores then answer st (some (.inl 100)) "pub"
               else answer st none "pub"
   | .refresh =>
     match errorCode p.res with
@@ -274,6 +277,13 @@ def complete (st : Core) (p : Pending) : Eff :=
       | some (.subscribed _ _) => { e with pub := true }
       | _ => e
     else e
+  | .hist =>
+    match errorCode p.res with
+    | some e => answer st (some e) "hist"
+    | none =>
+      -- `Result == nil` with a `since` position of an unknown epoch: Node.History answers
+      -- ErrorUnrecoverablePosition, written by logWriteInternalErrorFlush as a client error
+      if p.res = .nores then answer st (some (.inl 112)) "hist" else answer st none "hist"
   | k => answer st (errorCode p.res) k.name
 
 /-- run the handler: log it, then either run the callback now or park it -/
